@@ -60,6 +60,35 @@ fn case_body(c: &[i128]) -> String {
     let x = format!("e::<{}>(0)", t);
     let cx = const_elem(et, 0);
     let nty = ty_of(count);
+    let via = if c.len() > 4 { c[4] } else { 1 };
+    // via 2: list forms whose elements are DISTINCT fn items; they have distinct types and only
+    // coerce to `fn() -> u32` inside one array literal or against an expected element type
+    if via == 2 {
+        let items: String = (0..count).map(|i| format!("fn f{}() -> u32 {{ {} }} ", i, 3 + 7 * i)).collect();
+        let elems = (0..count).map(|i| format!("{{ lg({}); f{} }}", i, i)).collect::<Vec<_>>().join(", ");
+        return match form {
+            0 => format!("{items}let a: GenericArray<fn() -> u32, _> = arr![{elems}{commas}]; observe(0, &a)"),
+            _ => format!("{items}let a: Box<GenericArray<fn() -> u32, _>> = box_arr![{elems}{commas}]; observe(1, &a)"),
+        };
+    }
+    // via 3: the repeat operand is a path to a `const` item of the non-Copy element type Ck
+    if via == 3 {
+        let k = "const C: Ck = Ck(3);";
+        return match form {
+            2 => format!("{k} let a: GenericArray<Ck, _> = arr![C; {nty}]; observe(0, &a)"),
+            3 => format!("{k} let a: GenericArray<Ck, _> = arr![C; {count}]; observe(0, &a)"),
+            4 => format!("{k} const A: GenericArray<Ck, {nty}> = arr![C; {nty}]; observe(0, &A)"),
+            5 => format!("{k} const A: GenericArray<Ck, {nty}> = arr![C; {count}]; observe(0, &A)"),
+            7 => format!("{k} let a: Box<GenericArray<Ck, _>> = box_arr![C; {nty}]; observe(1, &a)"),
+            _ => format!("{k} let a: Box<GenericArray<Ck, _>> = box_arr![C; {count}]; observe(1, &a)"),
+        };
+    }
+    // via 4: the braced length is a const generic parameter of the enclosing fn
+    if via == 4 {
+        return format!(
+            "fn gen<const LEN: usize>() -> Vec<i128> where typenum::Const<LEN>: generic_array::IntoArrayLength {{ let a: GenericArray<{t}, _> = arr![{x}; {{LEN}}]; observe(0, &a) }} gen::<{count}>()"
+        );
+    }
     match form {
         0 => format!("let a: GenericArray<{t}, _> = arr![{}{commas}]; observe(0, &a)", list()),
         1 => format!("const A: GenericArray<{t}, {nty}> = arr![{}{commas}]; observe(0, &A)", clist()),
@@ -267,6 +296,25 @@ fn generated_cases(thorough: bool) -> Vec<Vec<i128>> {
             v.push(vec![13, n, et, 0, 1]);
         }
     }
+    // list elements that need a coercion to the common element type (distinct fn items)
+    for k in [0i128, 1, 2, 3, 5, 8, 33] {
+        for tr in 0..2i128 {
+            v.push(vec![0, k, 0, tr, 2]);
+            v.push(vec![6, k, 0, tr, 2]);
+        }
+    }
+    // a `const` item of a non-Copy type as the repeat operand
+    for n in [0i128, 1, 2, 3, 16, 33] {
+        for form in [2i128, 3, 4, 5, 7, 8] {
+            v.push(vec![form, n, 2, 0, 3]);
+        }
+    }
+    // the braced length is a const generic parameter
+    for n in [0i128, 1, 3, 16, 64] {
+        for et in [0i128, 1] {
+            v.push(vec![12, n, et, 0, 4]);
+        }
+    }
     // box_arr! is not usable in a const
     v.push(vec![11, 0, 0, 0, 1]);
     v.push(vec![11, 3, 0, 1, 1]);
@@ -326,7 +374,9 @@ fn main() {
         while c.len() < 5 {
             c.push(1);
         }
-        c[4] = 1; // a replay always goes through a generated program
+        if c[4] < 1 {
+            c[4] = 1; // a replay always goes through a generated program
+        }
         run_generated(&t, vec![c]);
         let _ = std::fs::remove_dir_all(&t.dir);
         return;
